@@ -19,7 +19,7 @@ func VerifReq_Budget() {
 	verifrt.SetNativeQuiesceMs(200)
 	k := 1 + verifrt.Choose("blocks", verifrt.Param("KMAX", 3))
 	g := verifrt.U64("global-budget")
-	verifrt.Assume(g < 1<<62)
+	_ = g // every 64-bit value
 	local := make([]bool, k)
 	localAll := verifrt.Choose("all-local", 2) == 1
 	for i := range local {
@@ -31,7 +31,7 @@ func VerifReq_Budget() {
 	nreq := verifrt.Param("REQS", 2)
 	for q := 0; q < nreq; q++ {
 		r := verifrt.U64("request-budget")
-		verifrt.Assume(r < 1<<62)
+		_ = r // every 64-bit value
 		e.MaxLinksPerReq = r
 		rq := e.Start(pA, q)
 		kit.Drain()
